@@ -351,6 +351,10 @@ func (fs *fsMutable) Rename(ctx context.Context, op *fuseops.RenameOp) (err erro
 	if !found {
 		return jfuse.ENOENT
 	}
+	if op.OldParent == op.NewParent && op.OldName == op.NewName {
+		// renaming an entry onto itself changes nothing
+		return nil
+	}
 	newChild, found, _ := fs.lookup(op.NewParent, op.NewName)
 	if found {
 		if newChild.mode.IsDir() {
